@@ -53,6 +53,7 @@ func init() {
 			// (range or index form) that stores ranges[i] = f(element i), or by sliceu.Map(list, f)
 			var oldRanges types.Object
 			okFill := false
+			var appendFill *ast.AssignStmt // the `x = append(x, ...)` statement of an append-style fill
 			mapFn := r.P.FuncObj("util/sliceu", "Map")
 			for _, lp := range fullLoopsOver(info, dp.Decl.Body, isOCList) {
 				var iv types.Object
@@ -67,6 +68,23 @@ func init() {
 				for _, st := range lp.Body.List {
 					as, ok := st.(*ast.AssignStmt)
 					if !ok || len(as.Lhs) != 1 || len(as.Rhs) != 1 {
+						continue
+					}
+					// ranges = append(ranges, f(element)) starting from an empty slice keeps the alignment too
+					if call, isCall := ast.Unparen(as.Rhs[0]).(*ast.CallExpr); isCall && len(call.Args) == 2 && !call.Ellipsis.IsValid() {
+						if id, isID := call.Fun.(*ast.Ident); isID && id.Name == "append" {
+							tgt := prog.IdentObjPlain(info, as.Lhs[0])
+							if tgt != nil && prog.IdentObjPlain(info, call.Args[0]) == tgt && startsEmpty(info, dp.Decl.Body, tgt, lp.Stmt) {
+								uses := false
+								inspect(call.Args[1], func(m ast.Node) bool {
+									if e, ok := m.(ast.Expr); ok && lp.IsElem(e) {
+										uses = true
+									}
+									return true
+								})
+								oldRanges, okFill, appendFill = tgt, uses, as
+							}
+						}
 						continue
 					}
 					ix, ok := ast.Unparen(as.Lhs[0]).(*ast.IndexExpr)
@@ -173,12 +191,18 @@ func init() {
 							if id, isID := ast.Unparen(x.Fun).(*ast.Ident); isID && (id.Name == "len" || id.Name == "cap") && info.Uses[id] != nil && info.Uses[id].Pkg() == nil {
 								ok = true
 							}
+							if appendFill != nil && x.Pos() >= appendFill.Pos() && x.End() <= appendFill.End() {
+								ok = true // the fill itself
+							}
 							k = -1 // innermost call decides
 						case *ast.RangeStmt:
 							if prog.IdentObj(info, x.X) == oldRanges {
 								ok = true
 							}
 						case ast.Stmt:
+							if appendFill != nil && x == ast.Stmt(appendFill) {
+								ok = true
+							}
 							k = -1
 						}
 					}
@@ -507,6 +531,17 @@ func init() {
 							ok = true
 						}
 					}
+					// the maximum written out: if t.endSeqNum > x { x = t.endSeqNum }
+					if is, isIf := nd.(*ast.IfStmt); isIf && is.Else == nil && len(is.Body.List) == 1 {
+						if b, isBin := ast.Unparen(is.Cond).(*ast.BinaryExpr); isBin {
+							b = orientCmp(b, func(e ast.Expr) bool { return exprUsesField(gi, e, end) })
+							as, isAs := is.Body.List[0].(*ast.AssignStmt)
+							if isAs && as.Tok == token.ASSIGN && len(as.Lhs) == 1 && len(as.Rhs) == 1 && (b.Op == token.GTR || b.Op == token.GEQ) && exprUsesField(gi, b.X, end) &&
+								types.ExprString(as.Lhs[0]) == types.ExprString(b.Y) && types.ExprString(as.Rhs[0]) == types.ExprString(b.X) {
+								ok = true
+							}
+						}
+					}
 					return true
 				})
 				r.Site(g.Decl.Pos(), g.Name()+": LatestSeqNum = max over tables")
@@ -735,4 +770,57 @@ func (r *Run) checkLevelSortCoverage(f *prog.FuncInfo, call *ast.CallExpr, level
 			}
 		}
 	}
+}
+
+// startsEmpty: the local slice obj is empty when the loop starts: outside the loop it is defined
+// exactly once, as make(T, 0[, cap]), an empty literal, nil, or a `var` without value.
+func startsEmpty(info *types.Info, body ast.Node, obj types.Object, loop ast.Node) bool {
+	n, ok := 0, true
+	ast.Inspect(body, func(nd ast.Node) bool {
+		if nd == loop {
+			return false
+		}
+		switch x := nd.(type) {
+		case *ast.AssignStmt:
+			for i, l := range x.Lhs {
+				if prog.IdentObjPlain(info, l) != obj {
+					continue
+				}
+				n++
+				if len(x.Lhs) != len(x.Rhs) {
+					ok = false
+					continue
+				}
+				rhs := ast.Unparen(x.Rhs[i])
+				switch y := rhs.(type) {
+				case *ast.CallExpr:
+					id, isID := y.Fun.(*ast.Ident)
+					if !isID || id.Name != "make" || len(y.Args) < 2 {
+						ok = false
+					} else if tv, has := info.Types[y.Args[1]]; !has || tv.Value == nil || tv.Value.String() != "0" {
+						ok = false
+					}
+				case *ast.CompositeLit:
+					if len(y.Elts) != 0 {
+						ok = false
+					}
+				default:
+					if tv, has := info.Types[rhs]; !has || !tv.IsNil() {
+						ok = false
+					}
+				}
+			}
+		case *ast.ValueSpec:
+			for i, nm := range x.Names {
+				if info.Defs[nm] == obj {
+					n++
+					if i < len(x.Values) {
+						ok = false
+					}
+				}
+			}
+		}
+		return true
+	})
+	return ok && n == 1
 }
